@@ -180,7 +180,17 @@ def R2_nearest_admissible(ctx):
             okr = rt[2] == (("agg", "routee_compass_core::model::network::edge_id::EdgeId", "EdgeId", (("0", ("field", ("arg", 2), "0")),)), ("field", ("arg", 2), "1"))
     nrt = nosite(deep_strip(Terms(nb).return_term()))
     en = [x for x in calls_in(nrt) if itm(x[1], "enumerate")]
-    ctx.check(okr and len(en) >= 1, "records:row=edge-id", "r-tree records are not built as EdgeRtreeRecord::new(EdgeId(enumerate index), geometry)", nb.where(), detail="(idx, geom) -> (EdgeId(idx), geom)")
+    # read position by position: record i is (EdgeId(i), geometry of row i) — nothing filtered or skipped before the numbering
+    ntm = Terms(nb)
+    bl = [c for c in nb.calls() if (c.callee or "").endswith("RTree::<T>::bulk_load") or "bulk_load" in (c.callee or "")]
+    okpos = False
+    got_pf = None
+    if len(bl) == 1:
+        got_pf = sequence_form(F, nb, ntm.operand(bl[0].args[0], bl[0].bb))
+        if got_pf is not None:
+            e_ = got_pf[0]
+            okpos = e_[0] == "call" and e_[1].endswith("EdgeRtreeRecord::new") and len(e_[2]) == 2 and e_[2][0] == ("agg", "routee_compass_core::model::network::edge_id::EdgeId", "EdgeId", (("0", ("i",)),)) and e_[2][1][0] == "at" and e_[2][1][2] == ("i",) and not contains(e_[2][1][1], lambda q: q == ("i",))
+    ctx.check(okr and len(en) >= 1 and okpos, "records:row=edge-id", "r-tree records are not built as EdgeRtreeRecord::new(EdgeId(enumerate index), geometry) for every row of the geometry file: %s" % (short(got_pf[0])[:120] if got_pf else None), nb.where(), detail="record i = (EdgeId(i), geometry[i])")
     R = E + "edge_rtree_record::EdgeRtreeRecord"
     db = F.one("EdgeRtreeRecord as rstar::object::PointDistance>::distance_2")
     oks = [r for r in table(db, max_paths=100000) if r.end == "return"]
